@@ -439,6 +439,36 @@ fn build_file(path: &str, rows: &Value) -> Result<(), String> {
 /// number of records having at least one tag equal to (plain, name, value)
 fn ref_tag_hits(recs: &[Rec], t: &Tag) -> u64 { recs.iter().filter(|r| r.tags.iter().any(|x| x == t)).count() as u64 }
 
+/// Look-ups that depend on the searchable ciphertexts the LIBRARY computes: every record by (kind, category, name), and an
+/// equality filter for every distinct tag (names starting with '~' cannot be expressed in a filter).
+/// Returns (records found with identical content, sum of the filter counts).
+fn probe(backend: &AnyBackend, expected: &BTreeMap<String, Vec<Rec>>, ctx: &str, fails: &mut Vec<Value>) -> Result<(u64, u64), askar_storage::Error> {
+    let mut fetched = 0u64;
+    let mut tag_hits = 0u64;
+    for (pname, recs) in expected {
+        block_on(async {
+            let mut sess = backend.session(Some(pname.clone()), false)?;
+            for r in recs {
+                if let Some(e) = sess.fetch(kind_of(r.kind), &r.cat, &r.name, false).await? {
+                    if Rec::from_entry(&e).to_json() == r.to_json() { fetched += 1; }
+                }
+            }
+            let distinct: BTreeSet<Tag> = recs.iter().flat_map(|r| r.tags.iter().cloned()).filter(|t| !t.name.starts_with('~')).collect();
+            for t in &distinct {
+                let f = TagFilter::is_eq(if t.plain { format!("~{}", t.name) } else { t.name.clone() }, t.value.clone());
+                let n = sess.count(None, None, Some(f)).await? as u64;
+                let want = ref_tag_hits(recs, t);
+                if n != want { oracle_fail(fails, format!("{}:tag-filter-count:{}", ctx, if t.plain { "plain" } else { "enc" }), json!({"tag": t.to_json(), "got": n, "want": want})); }
+                tag_hits += n;
+            }
+            sess.close(true).await?;
+            drop(sess);
+            Ok::<(), askar_storage::Error>(())
+        })?;
+    }
+    Ok((fetched, tag_hits))
+}
+
 fn exec_write(case: &Value, tag: &str) -> Value {
     let method = s(case, "method");
     let pass = s(case, "pass");
@@ -465,33 +495,9 @@ fn exec_write(case: &Value, tag: &str) -> Value {
         expected.insert(s(&p, "name"), recs);
     }
     let view = library_view(&backend);
-    let mut fetched = 0u64;
-    let mut tag_hits = 0u64;
-    let mut probe_err = None;
-    for (pname, recs) in &expected {
-        let r: Result<(), askar_storage::Error> = block_on(async {
-            let mut sess = backend.session(Some(pname.clone()), false)?;
-            for r in recs {
-                // searchable category / name: the library looks the row up by the ciphertext IT computes
-                if let Some(e) = sess.fetch(kind_of(r.kind), &r.cat, &r.name, false).await? {
-                    if Rec::from_entry(&e).to_json() == r.to_json() { fetched += 1; }
-                }
-            }
-            // searchable tag names / values: equality filters for every distinct tag
-            let distinct: BTreeSet<Tag> = recs.iter().flat_map(|r| r.tags.iter().cloned()).filter(|t| !t.name.starts_with('~')).collect();
-            for t in &distinct {
-                let f = TagFilter::is_eq(if t.plain { format!("~{}", t.name) } else { t.name.clone() }, t.value.clone());
-                let n = sess.count(None, None, Some(f)).await? as u64;
-                let want = ref_tag_hits(recs, t);
-                if n != want { oracle_fail(&mut fails, format!("write:tag-filter-count:{}", if t.plain { "plain" } else { "enc" }), json!({"tag": t.to_json(), "got": n, "want": want})); }
-                tag_hits += n;
-            }
-            sess.close(true).await?;
-            drop(sess);
-            Ok(())
-        });
-        if let Err(e) = r { probe_err = Some(e); break; }
-    }
+    let probed = probe(&backend, &expected, "write", &mut fails);
+    let (fetched, tag_hits) = *probed.as_ref().unwrap_or(&(0, 0));
+    let probe_err = probed.err();
     close(backend);
     cleanup(&Some(path));
     if let Some(e) = probe_err {
@@ -546,17 +552,28 @@ fn exec_golden(case: &Value, tag: &str) -> Value {
         Ok(b) => b,
         Err(e) => {
             cleanup(&Some(path));
-            return json!({"out": {"err": format!("open:{}", err_name(e.kind()))},
+            return json!({"out": {"err": format!("open:{}", err_name(e.kind()))}, "model_input": {"raw": raw, "pass": pass, "method": method},
                           "oracle": [{"sig": format!("golden:current-code-cannot-open:{}:{}", err_name(e.kind()), method), "detail": format!("{:?}", e)}]});
         }
     };
     let view = library_view(&backend);
+    // the recorded contents must also be FOUND by the current code (searchable ciphertexts are recomputed for every look-up)
+    let recorded_recs: BTreeMap<String, Vec<Rec>> = meta["profiles"].as_object().cloned().unwrap_or_default().iter()
+        .map(|(k, v)| (k.clone(), v.as_array().cloned().unwrap_or_default().iter().map(rec_of).collect())).collect();
+    let probed = if view.is_ok() { Some(probe(&backend, &recorded_recs, "golden", &mut fails)) } else { None };
     close(backend);
     let (dump, lib_default) = match view {
         Ok(v) => v,
         Err(e) => { cleanup(&Some(path)); return json!({"out": {"err": format!("dump:{}", err_name(e.kind()))},
+                      "model_input": {"raw": raw, "pass": pass, "method": method},
                       "oracle": [{"sig": format!("golden:current-code-cannot-read:{}:{}", err_name(e.kind()), method), "detail": format!("{:?}", e)}]}) }
     };
+    let n_recorded: u64 = recorded_recs.values().map(|v| v.len() as u64).sum();
+    match probed {
+        Some(Ok((fetched, _))) => if fetched != n_recorded { oracle_fail(&mut fails, format!("golden:fetch-by-category-name:{}", method), json!({"fetched": fetched, "recorded": n_recorded})); },
+        Some(Err(e)) => oracle_fail(&mut fails, format!("golden:current-code-cannot-read:{}:{}", err_name(e.kind()), method), json!(format!("{:?}", e))),
+        None => {}
+    }
     // the recorded dump carries every value as plain hex; bring it to the canonical value form (long values → digest)
     let mut recorded = meta["profiles"].clone();
     if let Some(m) = recorded.as_object_mut() {
